@@ -27,7 +27,7 @@ From Verif.Base Require Import Bytes.
 From Verif.Codec Require Import Packets Decode Encode.
 From Verif.Gateway Require Import GwTypes GwStep GwWf.
 From Verif.Client Require Import ClTypes ClStep.
-From Verif.System Require Import Compose ComposeProofs ComposeProofs2_aux ComposeProofs2 ComposeProofs3_aux ComposeProofs3 ComposeLoss ComposeLoss2 ComposeSleep ComposeSleepQ1 ComposeSleepQ2 ComposeSleepQ2b.
+From Verif.System Require Import Compose ComposeProofs ComposeProofs2_aux ComposeProofs2 ComposeProofs3_aux ComposeProofs3 ComposeLoss ComposeLoss2 ComposeSleep ComposeSleepQ1 ComposeSleepQ1n ComposeSleepQ2 ComposeSleepQ2b.
 From Verif.Checkers Require Import ChkCodec ChkE2E.
 Open Scope N_scope.
 
@@ -190,6 +190,38 @@ Theorem C26_sleep_cycle_with_a_qos1_message :
       y_c2g_k y' = (y_c2g_k y + 3)%nat /\ y_g2c_k y' = (y_g2c_k y + 3)%nat.
 Proof. exact C26_sleep_cycle_q1_message. Qed.
 Print Assumptions C26_sleep_cycle_with_a_qos1_message.
+
+(* ... and with ANY list of QoS 1 broker messages with pairwise distinct message IDs (each on a subscribed short
+   topic, bm1_ok) arriving during one such sleep: at the wake-up PINGREQ, the n PUBLISHes in arrival order, PINGRESP,
+   per message PUBACK and handler in order, Sleep returns nil, then the n PUBACKs at the broker in order
+   (wake_trace_q1s); every message reaches its handler exactly once in order, the broker receives exactly one
+   PUBACK per message ID in order (ComposeSleepQ1n.wake_trace_q1s_facts), no transaction or timer is left. *)
+Theorem C26_sleep_cycle_with_qos1_messages :
+  forall cfg y subs id ms msgs d,
+    QuietS cfg y subs -> 1000 <= ms -> ms / 1000 < 65536 ->
+    gw_keepalive (y_gw y) = 0 \/ ms / 1000 <= gw_keepalive (y_gw y) ->
+    ms < retry_delay (e_gw cfg) ->
+    Forall (bm1_ok subs) msgs -> NoDup (map bm_mid msgs) -> N.of_nat (length msgs) <= 3332 -> okb (k_cid (e_cl cfg)) = true ->
+    (forall i, (i <= S (length msgs))%nat -> nth_fault (e_c2g cfg) (y_c2g_k y + i) = FDeliver) ->
+    (forall i, (i <= S (length msgs))%nat -> nth_fault (e_g2c cfg) (y_g2c_k y + i) = FDeliver) ->
+    ms <= d ->
+    let t := gw_now (y_gw y) in
+    exists oss y', sys_run cfg y (SCall id (ASleep ms) :: map (fun m => SBpub (bm1_mq m)) msgs ++ [SAdv d]) = (oss, y') /\
+      oss = [SoC2G t FDeliver (pack (Disconnect (ms / 1000))); SoG2C t FDeliver (pack (Disconnect 0))] ::
+            map (fun m => [SoBS t (bm1_mq m)]) msgs ++ [wake_trace_q1s cfg (t + ms) id msgs] /\
+      AwakeS cfg y' subs [] /\ gw_now (y_gw y') = t + d /\ y_br y' = y_br y.
+Proof. exact C26_sleep_cycle_q1_messages. Qed.
+Print Assumptions C26_sleep_cycle_with_qos1_messages.
+
+(* what the wake-up trace of that theorem contains: one handler invocation per message in order, one nil return,
+   one PUBACK per message at the broker in order *)
+Theorem C26_sleep_cycle_with_qos1_messages_delivery :
+  forall cfg T id ms,
+    cbs_full (wake_trace_q1s cfg T id ms) = map bm1_rec ms /\
+    rets_of (wake_trace_q1s cfg T id ms) = [(id, ROk)] /\
+    brs_of (wake_trace_q1s cfg T id ms) = map (fun m => MqPuback (bm_mid m)) ms.
+Proof. exact wake_trace_q1s_facts. Qed.
+Print Assumptions C26_sleep_cycle_with_qos1_messages_delivery.
 
 (* A sleep cycle with a QoS 2 broker message (sleep shorter than the gateway's RetryDelay, time advanced to less
    than one RetryDelay past the wake-up): what the composed model - and the code - really do.  At the wake-up the
